@@ -9,20 +9,25 @@
   Full statement (kept visible): after EVERY block, for every registered candidate c,
       votes c = ⌊deposit c / 100 LEMO⌋ + Σ_{v : voteFor v = c} ⌊balance v / 200 LEMO⌋ .
 
-  * REFUTED on the code as it stands — `tally_refuted`: a voter whose balance crosses a 200-LEMO boundary
+  * REFUTED on the code as it stands — `negative_votes_refuted` ("no vote count is ever negative": −1 in the model state),
+    `unregistered_has_votes_refuted` / `blank_flag_refuted` / `flag_overwritten_by_update_refuted` ("an unregistered
+    candidate has zero votes": the isCandidate flag of a RegisterTx is never validated — model `isCand` has FOUR states), and
+    `tally_refuted`: a voter whose balance crosses a 200-LEMO boundary
     earlier in the block in which it votes is counted twice (the vote tx uses the mid-block balance, the
     end-of-block pass re-applies the change since block start).  Known finding c11/tally-mismatch/block-with-vote-tx.
   * proved for all states: `pass_formula` (what the end-of-block pass adds to each candidate, for every
     address list), `revote_moves_weight`, `register_sets_deposit_votes`, `unregister_zeroes`,
     `topup_adds_floor_difference`, and `tally_kept_by_balance_only_block_partial` (the invariant is
     preserved by the pass when nobody's voteFor / candidacy changed in the block).
+  * whole blocks and histories WITHOUT a hypothesis on the post-transaction state: `mine_transfers_frame`,
+    `transfer_block_keeps_tally`, `transfer_history_keeps_tally` (blocks of transfers, any height, induction over histories).
   * REWARD BLOCKS (Finalize = term reward, deposit refunds, THEN the vote pass): `finalize_keeps_tally_partial` —
     under the same guard the tally is exact after Finalize of ANY block, with respect to the POST-reward,
     POST-refund balances of the voters (a deputy's income address that received its salary, an unregistered
     candidate that got its deposit back); `finalize_changes_votes_only_by_pass` (reward and refunds touch nobody's
-    votes / voteFor / candidacy).  The ORDER is what makes it true: `votes_before_reward_refuted` — with the vote
-    pass run BEFORE issueTermReward / refundCandidateDeposit (model switch `votesLast := false`) the salaries and
-    refunds of the reward block never become votes (kernel-checked witness; the code as it stands passes it).
+    votes / voteFor / candidacy).  The ORDER is what makes it true: `votes_before_reward_refuted` — a MUTANT OF THE MODEL
+    (switch `votesLast := false`), not a refutation of the code: with the vote pass run BEFORE issueTermReward /
+    refundCandidateDeposit the salaries and refunds of the reward block never become votes (the code as it stands passes).
 -/
 import LemoProofs.C01
 namespace LemoProofs.C11
